@@ -191,7 +191,7 @@ class C10(World):
         kind = rng.choice(cfg["kinds"])
         r = {"kind": kind, "salt": rng.randrange(2**31), "units": cfg["units"]}
         if kind == "mesh":
-            r["mesh"] = meshes.random_recipe(rng, bases=MESH_BASES, variants=["plain", "plain", "unreferenced", "dup_vertices"])
+            r["mesh"] = meshes.random_recipe(rng, bases=MESH_BASES, variants=["plain", "plain", "plain", "unreferenced", "dup_vertices", "no_faces"])
             r["mesh"]["size"] = rng.choice([1.0, 0.5, 2.0])
         return r
 
